@@ -506,6 +506,9 @@ public:
      * @return The feature with the specified index.
      */
     Feature getFeature(size_t index) const {
+        if (index >= backend()->featureCount()) {
+            throw OutOfBounds("No feature at given index", index);
+        }
         return backend()->getFeature(index);
     }
 
